@@ -3,7 +3,7 @@ from rules import c05, lib_coro, lib_core, lib_head, lib_ready
 
 
 def run(ctx):
-    fbs = ctx.facts(['K20', 'K20n', 'KF'], kinds=('probe', 'lib'), only=r'p_coro\.cpp$|src/algo|src/exe|src/lazy')
+    fbs = ctx.facts(['K20', 'K20n', 'KF'], kinds=('probe', 'lib'), only=r'p_coro\.cpp$|src/algo|src/exe|src/lazy', tests=r'/test/')
     rr = ctx.rule('R-READY', 'await_ready is false unless the awaited result can be read', minimum=6)
     rs = ctx.rule('R-SUSPEND', 'bool await_suspend == registration outcome', minimum=10)
     rh = ctx.rule('R-HANDOFF', 'no awaiter field is touched after the coroutine may have been handed off', minimum=30)
